@@ -53,30 +53,41 @@ Theorem c10_ack_largest : forall j now pn largest rt cap j' f,
   gen_ack j now pn largest rt cap = GaOk j' f -> a_largest f = largest.
 Proof. intros. eapply p_c10_ack_fits; eauto. Qed.
 
-(* conditional form (see c10_ack_complete_refuted): capacity strictly above the size of the
-   frame that lists everything => every tracked received number <= largest is listed *)
+(* capacity at least the size of the frame that lists everything => every tracked received
+   number <= largest is listed (full strength since the fix of F30, `capacity >= size`) *)
 Theorem c10_ack_complete : forall h j reg now pn largest rt cap j' f,
   rreach h j reg -> In largest reg ->
-  gen_ack j now pn largest rt cap = GaOk j' f -> full_size j now largest rt < cap ->
+  gen_ack j now pn largest rt cap = GaOk j' f -> full_size j now largest rt <= cap ->
   exists rs, ack_iter f = Some rs /\
     forall x, x <= largest -> has j x = true -> in_ranges x rs = true.
 Proof. exact p_c10_ack_complete. Qed.
 
-(* finding F30: `capacity >= full size` is not enough — with capacity == full size (7 bytes
-   here) the last range is dropped although it fits: number 0 was received, is tracked, and is
-   not acknowledged; the frame uses 5 of the 7 bytes *)
-Theorem c10_ack_complete_refuted :
+(* regression witness of F30: capacity == full size (7 bytes) returns the complete frame; with 6
+   bytes the last range is cut and the frame uses 5 *)
+Theorem c10_ack_exact_fit :
   let h := [RvRcvd 0 0 true 10; RvRcvd 0 2 true 10] in
   match rv_run (rj_new None) [] h with
   | Some (j, reg) =>
       full_size j 0 2 0 = 7 /\
-      match gen_ack j 0 1 2 0 7 with
-      | GaOk _ f => ack_iter f = Some [(2, 2)] /\ has j 0 = true /\ In 0 reg /\ ack_encoding_size f = 5
-      | _ => False
+      match gen_ack j 0 1 2 0 7, gen_ack j 0 1 2 0 6 with
+      | GaOk _ f, GaOk _ f6 =>
+          ack_iter f = Some [(2, 2); (0, 0)] /\ ack_encoding_size f = 7 /\
+          ack_iter f6 = Some [(2, 2)] /\ ack_encoding_size f6 = 5
+      | _, _ => False
       end
   | None => False
   end.
-Proof. exact p_c10_ack_complete_refuted. Qed.
+Proof. exact p_c10_ack_exact_fit. Qed.
+
+(* generating a frame — with any capacity, also when it is refused with CONGESTION — marks the
+   visited records AckSent but never removes a number from the tracked set: what was cut for
+   capacity is listed by the next frame that has room (c10_ack_complete applies to j') *)
+Theorem c10_genack_keeps_tracked : forall j now pn largest rt cap,
+  match gen_ack j now pn largest rt cap with
+  | GaOk j' _ | GaErr j' => r_off j' = r_off j /\ forall q, has j' q = has j q
+  | GaPanic => True
+  end.
+Proof. exact p_c10_genack_keeps_tracked. Qed.
 
 (* ---- a packet number is accepted at most once ---- *)
 Theorem c10_accept_once : forall h j reg pn p,
@@ -154,9 +165,11 @@ Example c10_nonvacuous_rcvd :
   match rv_run (rj_new (Some 25)) [] h with
   | Some (j, reg) =>
       In 9 reg /\ r_off j = 1 /\
-      match gen_ack j 50 7 9 5 12 with
-      | GaOk _ f => f = mkack 9 45000 1 [(2, 1)] /\ ack_encoding_size f = 10 /\ full_size j 50 9 5 = 12
-      | _ => False
+      match gen_ack j 50 7 9 5 12, gen_ack j 50 7 9 5 11 with
+      | GaOk _ f, GaOk _ f' =>
+          f = mkack 9 45000 1 [(2, 1); (0, 0)] /\ ack_encoding_size f = 12 /\ full_size j 50 9 5 = 12 /\
+          f' = mkack 9 45000 1 [(2, 1)] /\ ack_encoding_size f' = 10
+      | _, _ => False
       end
   | None => False
   end.
@@ -188,7 +201,8 @@ Print Assumptions c10_ack_fields.
 Print Assumptions c10_ack_fits.
 Print Assumptions c10_ack_largest.
 Print Assumptions c10_ack_complete.
-Print Assumptions c10_ack_complete_refuted.
+Print Assumptions c10_ack_exact_fit.
+Print Assumptions c10_genack_keeps_tracked.
 Print Assumptions c10_accept_once.
 Print Assumptions c10_accept_once_forever.
 Print Assumptions c10_sent_inv.
